@@ -186,6 +186,7 @@ type c16Expect struct {
 	dep         map[string]bool   // unmarked element that lives inside a marked one
 	parent      map[string]string // marked element -> marked element it lives in (dynamic nesting), if any
 	troot       map[string]bool   // some path to the element leads through a component whose first node is a <template> tag
+	afterRoot   map[string]bool   // some path reaches the element as a later sibling of a component's first-node <template>: the engine takes that tag as the component's root and renders nothing that follows it
 	visits      int               // size of the walk
 	selfLoop    map[string]int    // marked element that carries v-for itself: number of items
 	staticGuard map[string]string
@@ -224,6 +225,7 @@ type c16Slot struct {
 }
 
 type c16Walker struct {
+	afterRoot int // > 0 while walking the siblings that follow a component's first-node <template>
 	c         *c16Case
 	x         *c16Expect
 	seen      map[string]bool
@@ -337,6 +339,9 @@ func (w *c16Walker) walk(nodes []c16Node, slot *c16Slot) {
 			if w.underTRoot() {
 				w.x.troot[n.M] = true
 			}
+			if w.afterRoot > 0 {
+				w.x.afterRoot[n.M] = true
+			}
 			iters := 1
 			if n.Loop {
 				iters = len(n.On)
@@ -402,7 +407,15 @@ func (w *c16Walker) walk(nodes []c16Node, slot *c16Slot) {
 				if n.Loop {
 					w.env[n.ID] = n.On[it]
 				}
-				w.walk(comp.Body, &c16Slot{kids: n.Kids, parent: slot})
+				if c16CompKind(comp) == "tfirst" && len(comp.Body) > 1 {
+					sl := &c16Slot{kids: n.Kids, parent: slot}
+					w.walk(comp.Body[:1], sl)
+					w.afterRoot++
+					w.walk(comp.Body[1:], sl)
+					w.afterRoot--
+				} else {
+					w.walk(comp.Body, &c16Slot{kids: n.Kids, parent: slot})
+				}
 			}
 			if n.Loop {
 				w.restore(n.ID, oldEnv, hadEnv)
@@ -452,7 +465,7 @@ func c16Model(c *c16Case, page *c16File) *c16Expect {
 	x := &c16Expect{
 		wantPage: map[string]int{}, wantFull: map[string]int{}, reach: map[string]int{},
 		class: map[string]string{}, units: map[string]map[string]bool{}, guard: map[string]string{}, dep: map[string]bool{},
-		parent: map[string]string{}, troot: map[string]bool{}, selfLoop: map[string]int{}, staticGuard: map[string]string{},
+		parent: map[string]string{}, troot: map[string]bool{}, afterRoot: map[string]bool{}, selfLoop: map[string]int{}, staticGuard: map[string]string{},
 	}
 	x.onceMs, x.plainMs = c16CollectMarkers(c)
 	// elements the walk never arrives at are vouched for by the witness that
